@@ -4,8 +4,10 @@ package engines
 
 import (
 	"fmt"
+	"runtime"
 	"strconv"
 	"sync"
+	"sync/atomic"
 	"time"
 
 	"github.com/boz/kcache"
@@ -181,6 +183,9 @@ func e11RootCase(seed uint64, L, mask int, n int) Case {
 			g.barrier()
 		}
 		sent := g.sent
+		if stalledFiltered != nil {
+			// the refilter phase below publishes more; healthy readers are compared afterwards
+		}
 		for _, h := range []*node{h1, h2, h3} {
 			checkExact(r, h.String(), h.mir.events(), sent)
 			r.Add("healthy-streams-checked", 1)
@@ -195,6 +200,38 @@ func e11RootCase(seed uint64, L, mask int, n int) Case {
 				r.V("C10", "stalled-subscription-cache-stale", "final: cache of the stalled accept-all filtered subscription is %v, the root's is %v", c, a)
 			}
 		}
+		if stalledFiltered != nil && L > kcache.EventBufsiz {
+			// (only with a certainly full buffer, so that no refilter event enters it)
+			// Refilter on a stalled (full) filtered subscription must neither hang nor
+			// stop its cache from following the parent
+			fam := filterFamily()
+			for _, f := range []*kit.Term{fam[2], fam[0]} {
+				var rerr error
+				if !within(func() { rerr = stalledFiltered.refilt(f) }) {
+					r.V("C10", "refilter-blocked-by-stalled-consumer", "Refilter(%s) on a filtered subscription whose consumer never reads (%d events published) did not return within %v", f, L, virtBound)
+					return
+				}
+				if rerr != nil {
+					r.V("C10", "refilter-error", "%v", rerr)
+				}
+				g.barrier()
+				for i := 0; i < 3; i++ {
+					if _, err := g.mutate(rng, u); err != nil {
+						r.V("C10", "publish-error", "%v", err)
+					}
+				}
+				g.barrier()
+				rl, _ := g.root.Cache().List()
+				want := f.Accepted(rl)
+				c, _ := cacheSnap(stalledFiltered.cc.Cache())
+				r.Add("stalled-refilter-checks", 1)
+				if !c.Equal(want) {
+					r.V("C10", "stalled-subscription-cache-stale", "after Refilter(%s) and 3 more events the cache of the stalled filtered subscription is %v, filter(root) is %v", f, c, want)
+					return
+				}
+			}
+		}
+		sent = g.sent
 		// now drain the stalled consumers
 		min := L
 		if min > kcache.EventBufsiz {
@@ -253,6 +290,10 @@ func e11RootCase(seed uint64, L, mask int, n int) Case {
 		r.Add("published", int64(len(sent)))
 		r.Set("signatures", strconv.FormatUint(core.Signature(), 16))
 		g.stop(r, "C12")
+		if slow != nil {
+			// let the slow reader (1 event per virtual second) run out before leaving the bubble
+			waitCh(slow.stopped, virtBound)
+		}
 		r.Key(id)
 		r.Sample = map[string]interface{}{"desc": d, "stalled": len(stalled), "published": len(sent)}
 	}}
@@ -316,6 +357,21 @@ func e11CtlCase(seed uint64, L, mask int) Case {
 			s, _ := ctl.SubscribeWithFilter(kit.TNull().Build())
 			stalled = append(stalled, s)
 		}
+		// a slow (not stalled) typed reader: one event per 2 virtual ms while the
+		// producer runs ahead; it may lose events but must never see them out of order
+		var slowSink *typedSink
+		if mask&1 == 0 || mask&4 != 0 {
+			ss, _ := ctl.Subscribe()
+			slowSink = &typedSink{}
+			go func() {
+				for e := range ss.Events() {
+					time.Sleep(2 * time.Millisecond)
+					slowSink.mu.Lock()
+					slowSink.seq = append(slowSink.seq, evrec{Type: e.Type(), Key: kit.Key(e.Resource()), RV: e.Resource().GetResourceVersion()})
+					slowSink.mu.Unlock()
+				}
+			}()
+		}
 		var release chan struct{}
 		var mcalls []evrec
 		var mmu sync.Mutex
@@ -351,6 +407,9 @@ func e11CtlCase(seed uint64, L, mask int) Case {
 		base := len(srv.LogCopy())
 		for i := 0; i < L; i++ {
 			u.mutate(rng, srv)
+			if i%3 == 2 {
+				time.Sleep(time.Millisecond) // the slow reader frees a slot every 2ms: it reads while events keep arriving
+			}
 			if i%25 == 24 {
 				core.Barrier()
 				want := kit.SnapOf(srv.Objects())
@@ -384,6 +443,17 @@ func e11CtlCase(seed uint64, L, mask int) Case {
 		for i, h := range []*typedSink{hs, hs2} {
 			checkExact(r, fmt.Sprintf("healthy typed subscriber %d", i), h.events(), sent)
 			r.Add("healthy-streams-checked", 1)
+		}
+		if slowSink != nil {
+			time.Sleep(time.Duration(L+10) * 2 * time.Millisecond)
+			core.Barrier()
+			got := slowSink.events()
+			r.Add("slow-streams-checked", 1)
+			if n, why := checkSubsequence(got, sent); n < 0 {
+				r.V("C10", "slow-stream-not-subsequence", "slow typed subscriber (one event per 2ms, %d published): %s", L, why)
+			} else if len(got) < min(L, kcache.EventBufsiz) {
+				r.V("C10", "slow-lost-too-much", "slow typed subscriber got %d of %d events", len(got), L)
+			}
 		}
 		min := L
 		if min > kcache.EventBufsiz {
@@ -437,6 +507,90 @@ func e11CtlCase(seed uint64, L, mask int) Case {
 	}}
 }
 
+// e11StressCase: real time, real parallelism (no bubble): typed consumers that
+// lag exactly one buffer behind (they only read when their buffer is full)
+// while the producer runs flat out.  What they read may have gaps but must be
+// in publication order.
+func e11StressCase(seed uint64, n int) Case {
+	id := fmt.Sprintf("E11/stress-typed/%d/%d", seed, n)
+	return Case{ID: id, Desc: map[string]interface{}{"seed": seed, "n": n, "what": "typed consumers reading at the overrun boundary, real time"}, Bubble: false, Run: func(r *Res) {
+		rng := kit.NewRng(kit.Mix(seed, uint64(n)+1111))
+		old := runtime.GOMAXPROCS([]int{4, 8, 16}[rng.Intn(3)])
+		defer runtime.GOMAXPROCS(old)
+		srv := kit.NewPodServer(nil)
+		u := smallUniverse()
+		u.mutate(rng, srv)
+		ctx, cancel := ctxWithCancel()
+		defer cancel()
+		ctl, err := pod.BuildController(ctx, kit.NullLog{}, srv)
+		if err != nil {
+			r.Inc(err.Error())
+			return
+		}
+		select {
+		case <-ctl.Ready():
+		case <-time.After(20 * time.Second):
+			r.Inc("typed controller not ready within 20s wall-clock")
+			return
+		}
+		var stop atomic.Bool
+		var wg sync.WaitGroup
+		var reads atomic.Int64
+		consumers := 4 + rng.Intn(5)
+		for c := 0; c < consumers; c++ {
+			var sub pod.Subscription
+			if c%2 == 0 {
+				sub, _ = ctl.Subscribe()
+			} else {
+				cl, _ := ctl.Clone()
+				sub, _ = cl.Subscribe()
+			}
+			wg.Add(1)
+			go func(c int, ch <-chan pod.Event) {
+				defer wg.Done()
+				last := 0
+				for !stop.Load() {
+					if len(ch) < kcache.EventBufsiz {
+						runtime.Gosched()
+						continue
+					}
+					for k := 0; k < 1+c%3; k++ {
+						select {
+						case e, ok := <-ch:
+							if !ok {
+								return
+							}
+							v := kit.Atoi(e.Resource().ResourceVersion)
+							reads.Add(1)
+							if v <= last {
+								r.V("C10", "slow-stream-not-subsequence", "typed consumer %d (reading only when its buffer is full) received version %d after version %d: out of publication order (or duplicate)", c, v, last)
+								return
+							}
+							last = v
+						default:
+						}
+					}
+				}
+			}(c, sub.Events())
+		}
+		total := 6000
+		for i := 0; i < total && !r.Failed(); i++ {
+			u.mutate(rng, srv)
+			if i%64 == 63 {
+				runtime.Gosched()
+			}
+		}
+		time.Sleep(20 * time.Millisecond)
+		stop.Store(true)
+		wg.Wait()
+		ctl.Close()
+		r.Add("stress-typed-reads", reads.Load())
+		r.Add("stress-typed-cases", 1)
+		r.Key(id)
+		r.Sample = map[string]interface{}{"consumers": consumers, "events": total, "reads_at_overrun_boundary": reads.Load()}
+	}}
+}
+
 func init() {
 	register("E11", func(tier string, seed uint64) []Case {
 		var cases []Case
@@ -457,6 +611,9 @@ func init() {
 					cases = append(cases, e11CtlCase(seed, L, m))
 				}
 			}
+		}
+		for i := 0; i < tierPick(tier, 16, 200); i++ {
+			cases = append(cases, e11StressCase(seed, i))
 		}
 		return cases
 	})
